@@ -103,4 +103,7 @@ theorem flow_handler_callbacks : Ebu.Flow.handlerBracket = true := by decide +ke
 /-- OBLIGATION: `OnPersistStart` before and `OnPersistComplete` after the one append, once each -/
 theorem flow_persist_callbacks : Ebu.Flow.persistShape = true := by decide +kernel
 
+/-- OBLIGATION: the OpenTelemetry adapter: every start callback starts one span and increments its counter once, unconditionally, with no early return; every complete callback takes the span from the context and ends it exactly once as its last statement on every path; the error counters are incremented exactly under `err != nil` -/
+theorem flow_otel_adapter : Ebu.Flow.otelShape = true := by decide +kernel
+
 end Ebu.Props.C20
